@@ -18,3 +18,24 @@ ORIENTATION_METHODS = {"A_IB", "A_IB_q", "B_Omega", "B_Omega_q", "B_Psi", "B_Psi
 # Subsystems documented as supported by scalar force laws and actuators ("Object providing the interface for a scalar
 # force law, e.g., Revolute, TwoPointInteraction")
 SCALAR_SUBSYSTEMS = ["TwoPointInteraction", "Revolute"]
+
+# Row-group polarities of the joint base classes (K9, sa/twobody.py: rowgroup_polarity), confirmed by hand from the formulas.
+# Orientation constraint  g = e_a . e_b  with e_a = A_IJ1[:, a] (body 1), e_b = A_IJ2[:, b] (body 2), n = e_a x e_b:
+#   g_q      = [ e_b . dA1[:, a]  |  e_a . dA2[:, b] ]                                          -> basis terms  +1
+#   g_dot    = n . (Omega1 - Omega2)                                                          -> rotational   -1
+#   g_dot_q  = [ n . dOmega1 + (Omega21 x e_b) . dA1[:, a]  |  -n . dOmega2 - (Omega21 x e_a) . dA2[:, b] ]   (Omega21 = Omega2 - Omega1,
+#              cross products written with the non-basis vector first)                          -> rotational -1, basis -1
+#   dn/dq    = [ -skew(e_b) dA1[:, a]  |  +skew(e_a) dA2[:, b] ]  (enters Wla_g_q)               -> basis      -1
+# key: (class, routine, row subscript text, family, tag kind) -> sign(body 2 terms) / sign(body 1 terms)
+JOINT_ROW_POLARITY = {
+    ("PositionOrientationBase", "g_q", "3 + i", "B", "q"): 1,
+    ("PositionOrientationBase", "g_dot_q", "3 + i", "B", "q"): -1,
+    ("PositionOrientationBase", "g_dot_q", "3 + i", "R", "q"): -1,
+    ("PositionOrientationBase", "Wla_g_q", ":nu1", "B", "q"): -1,
+    ("PositionOrientationBase", "Wla_g_q", "nu1:", "B", "q"): -1,
+    ("PositionOrientationBase", "g_dot", "3 + i", "R", ""): -1,
+    ("ProjectedPositionOrientationBase", "g_q", "self.nla_g_trans + i", "B", "q"): 1,
+    ("ProjectedPositionOrientationBase", "g_dot_q", "self.nla_g_trans + i", "B", "q"): -1,
+    ("ProjectedPositionOrientationBase", "g_dot_q", "self.nla_g_trans + i", "R", "q"): -1,
+    ("ProjectedPositionOrientationBase", "g_dot", "self.nla_g_trans + i", "R", ""): -1,
+}
